@@ -134,7 +134,7 @@ def st_writer_library(max_blocks=8):
     entry = st.fixed_dictionaries({"t": st.just("entry"), "type": st.sampled_from(["article", "book", "misc", "Article"]), "key": key, "fields": fields, "line": line, "raw": raw})
     string = st.fixed_dictionaries({"t": st.just("string"), "key": key, "value": val, "line": line, "raw": raw})
     pre = st.fixed_dictionaries({"t": st.just("preamble"), "value": val, "line": line, "raw": raw})
-    ec = st.fixed_dictionaries({"t": st.just("ecomment"), "comment": st.sampled_from(["c", "a comment", "multi\nline", ""]), "line": line, "raw": raw})
+    ec = st.fixed_dictionaries({"t": st.just("ecomment"), "comment": st.sampled_from(["c", "a comment", "multi\nline", "", "ends in \\", "x \\\\"]), "line": line, "raw": raw})
     ic = st.fixed_dictionaries({"t": st.just("icomment"), "comment": st.sampled_from(["% c", "free text", "two\nlines"]), "line": line, "raw": raw})
     failed = st.fixed_dictionaries({"t": st.just("failed"), "raw": raw, "line": line})
     dupf = st.fixed_dictionaries({"t": st.just("dupfield"), "entry": entry, "keys": st.just(["a"])})
